@@ -83,13 +83,39 @@ def simp(t):
     return z3.simplify(t)
 
 
+# ---------------------------------------------------------------- macros
+
+def _macro(fn):
+    """Build the (large) defining expression once over placeholder constants and instantiate it
+    by C-level substitution: the Python-side construction of these terms dominated run time."""
+    import functools
+    import inspect
+
+    n = len(inspect.signature(fn).parameters)
+    cache = {}
+
+    @functools.wraps(fn)
+    def wrapper(*args):
+        if len(args) != n or not all(isinstance(a, z3.ExprRef) and a.sort() == Py for a in args):
+            return fn(*args)
+        if "t" not in cache:
+            ph = [z3.Const(f"macro!{fn.__name__}!{i}", Py) for i in range(n)]
+            cache["ph"] = ph
+            cache["t"] = fn(*ph)
+        return z3.substitute(cache["t"], *zip(cache["ph"], args))
+
+    return wrapper
+
+
 # ---------------------------------------------------------------- kinds
 
+@_macro
 def is_number(t):
     """int, bool or float - what Python's numeric tower compares by value."""
     return z3.Or(Py.is_int(t), Py.is_bool(t), Py.is_float(t))
 
 
+@_macro
 def numval(t):
     return z3.If(
         Py.is_int(t),
@@ -98,6 +124,7 @@ def numval(t):
     )
 
 
+@_macro
 def intval(t):
     """Value of an int-or-bool term as an Int."""
     return z3.If(Py.is_bool(t), z3.If(Py.b(t), z3.IntVal(1), z3.IntVal(0)), Py.i(t))
@@ -107,11 +134,13 @@ def is_intlike(t):
     return z3.Or(Py.is_int(t), Py.is_bool(t))
 
 
+@_macro
 def is_sequence(t):
     """collections.abc.Sequence registration: list, tuple, str (NodeList is a list)."""
     return z3.Or(Py.is_list(t), Py.is_tuple(t), Py.is_str(t), Py.is_nodelist(t))
 
 
+@_macro
 def seq_items(t):
     """Item sequence of a list / tuple / nodelist term."""
     return z3.If(
@@ -119,6 +148,7 @@ def seq_items(t):
     )
 
 
+@_macro
 def py_len(t):
     return z3.If(
         Py.is_str(t),
@@ -127,10 +157,12 @@ def py_len(t):
     )
 
 
+@_macro
 def has_len(t):
     return z3.Or(is_sequence(t), Py.is_dict(t))
 
 
+@_macro
 def truthy(t):
     """Python bool(t)."""
     return z3.If(
@@ -166,6 +198,7 @@ def _listlike(t):
     return z3.Or(Py.is_list(t), Py.is_nodelist(t))
 
 
+@_macro
 def py_eq(a, b):
     """Python `a == b` for JSON-like values (numbers by value, bool is an int)."""
     return z3.If(
@@ -219,6 +252,7 @@ def py_eq(a, b):
     )
 
 
+@_macro
 def rfc_eq(a, b):
     """RFC 9535 2.3.5.2.2 / RFC 6902 4.6 equality of JSON values (bool is not a number)."""
     num = lambda t: z3.Or(Py.is_int(t), Py.is_float(t))  # noqa: E731
@@ -300,12 +334,14 @@ def dict_find_facts(keys, k, index_terms=()):
 isjson = z3.Function("isjson", Py, z3.BoolSort())
 
 
+@_macro
 def json_kind(t):
     return z3.Or(
         Py.is_none(t), Py.is_bool(t), Py.is_int(t), Py.is_float(t), Py.is_str(t), Py.is_list(t), Py.is_dict(t)
     )
 
 
+@_macro
 def json_value(t):
     """`t` is what json.loads produces: shallow kind restriction + the hereditary flag."""
     return z3.And(isjson(t), json_kind(t), z3.Implies(Py.is_dict(t), z3.Length(Py.keys(t)) == z3.Length(Py.vals(t))))
@@ -338,6 +374,7 @@ RE_CANON_NAT = z3.Union(z3.Re("0"), z3.Concat(NZDIGIT, z3.Star(DIGIT)))
 RE_DIGITS = z3.Plus(DIGIT)
 
 
+@_macro
 def py_str(t):
     return z3.If(
         Py.is_str(t),
